@@ -42,6 +42,18 @@ ShockRow(M, st, env) ==
 \* deterministic next states
 DetNames(M) == StateNames(M) \ StochNames(M)
 NextDet(M, env) == [n \in DetNames(M) |-> CallF(M, "next_" \o n, env)]
+(***************************************************************************)
+(* A deterministic transition may read the REALISED next value of a        *)
+(* stochastic state (an argument next_<stochastic state>, e.g. next-period *)
+(* wealth that depends on next-period health).  Then the deterministic     *)
+(* next states are a function of the drawn labels l as well.               *)
+(***************************************************************************)
+DrawNames(M) == {"next_" \o st : st \in StochNames(M)}
+DetReadsDraw(M) == \E n \in DetNames(M) : FuncAnc(M, "next_" \o n) \cap DrawNames(M) # {}
+NextDetGiven(M, env, l) ==
+  IF DetReadsDraw(M)
+  THEN NextDet(M, env @@ [f \in DrawNames(M) |-> R(l[CHOOSE st \in StochNames(M) : "next_" \o st = f])])
+  ELSE NextDet(M, env)
 \* all label combinations of the stochastic states
 LabelCombos(M) == IdxSet(SelectSeq(StateSeq(M), LAMBDA v : v.name \in StochNames(M)))
 
@@ -58,11 +70,12 @@ Q(M, t, Vn, env) ==
   LET u == CallF(M, "utility", env)
   IN IF t = M.T - 1 THEN u
      ELSE
-     LET det  == NextDet(M, env)
+     LET det0 == NextDet(M, env)
+         det(l) == IF DetReadsDraw(M) THEN NextDetGiven(M, env, l) ELSE det0
          sn   == StochNames(M)
          rows == [st \in sn |-> ShockRow(M, st, env)]
          w(l) == RProd(sn, LAMBDA st : rows[st][l[st] + 1])
-         v(l) == VFun(M, Vn, det @@ [st \in sn |-> R(l[st])])
+         v(l) == VFun(M, Vn, det(l) @@ [st \in sn |-> R(l[st])])
          labs == LabelCombos(M)
      IN IF \E l \in labs : w(l) # R(0) /\ v(l) = OOS THEN OOS
         ELSE LET ev == RSum(labs, LAMBDA l : IF v(l) = OOS THEN R(0) ELSE RMul(w(l), v(l)))
@@ -136,7 +149,9 @@ RowChoice(M, t, Vn, row, tol) ==
 \* C03: the next row's states follow the law of motion
 RowMotion(M, t, row, nxt) ==
   LET env == row.state @@ row.choice @@ ("_period" :> R(t))
-  IN IF \E n \in DetNames(M) : NextDet(M, env)[n] # nxt.state[n] THEN "law-of-motion"
+      \* the labels the stochastic states were drawn to (0 where the next row does not hold a label: reported below)
+      drawn == [st \in StochNames(M) |-> IF nxt.state[st][2] = 1 /\ nxt.state[st][1] \in 0..VarRec(M, st).n - 1 THEN nxt.state[st][1] ELSE 0]
+  IN IF \E n \in DetNames(M) : NextDetGiven(M, env, drawn)[n] # nxt.state[n] THEN "law-of-motion"
      ELSE IF \E st \in StochNames(M) :
                ~(nxt.state[st][2] = 1 /\ nxt.state[st][1] \in 0..VarRec(M, st).n - 1) THEN "stoch-not-a-label"
      ELSE IF \E st \in StochNames(M) : ShockRow(M, st, env)[nxt.state[st][1] + 1] = R(0) THEN "zero-prob-draw"
